@@ -184,6 +184,7 @@ func vhAdoptKids(parent *node, kids ...*node) {
 // floating-point constants are outside (go/constant floats are opaque to the engine).
 
 var (
+	vhConstBits = 70 // |v| <= 2^vhConstBits for integer constants (thorough: 200)
 	vhConstKind = 0 // 0 integer, 1 boolean, 2 string
 	vhConstLeft = 0 // 1: the constant is the left operand
 )
@@ -279,7 +280,7 @@ func vh_C12_binconst() {
 		// (go/constant floats and complex values are opaque to the engine)
 		vAssume(i0 <= 11 || i0 == 16)
 		v = vBigNondet("v")
-		lim := vBigPow2(70)
+		lim := vBigPow2(vhConstBits)
 		vAssume(vBigLe(vBigNeg(lim), v) && vBigLe(v, lim))
 	}
 	a, c := vhTypedVar(in, sc, "a", i0), vhConstNodeOf(in, v)
@@ -338,7 +339,7 @@ func vh_C12_assignconst() {
 	if vhConstKind == 0 {
 		vAssume(dst <= 11 || dst >= 16)
 		v = vBigNondet("v")
-		lim := vBigPow2(70)
+		lim := vBigPow2(vhConstBits)
 		vAssume(vBigLe(vBigNeg(lim), v) && vBigLe(v, lim))
 	}
 	c := vhConstNodeOf(in, v)
